@@ -118,7 +118,13 @@ func newLine(r *rng.R, kind string) string {
 func genList(r *rng.R, kind string, n int) corr.Case {
 	lines := []string{newLine(r, kind)}
 	next := 1
-	item := func() string { next++; return strconv.Itoa(next - 1) }
+	item := func() string {
+		if kind != "syncq" && r.Chance(1, 12) {
+			return "nil"
+		}
+		next++
+		return strconv.Itoa(next - 1)
+	}
 	consumers := 0
 	closeAt := -1
 	if r.Chance(2, 3) {
@@ -139,6 +145,11 @@ func genList(r *rng.R, kind string, n int) corr.Case {
 				l = "waitclear"
 			}
 			consumers++
+		case k < 10 && kind != "syncq" && consumers < 6:
+			l = "addany " + item() // waits only when the queue is bounded and full
+			consumers++
+		case k < 13 && kind != "syncq":
+			l = "settle"
 		case k < 38 && consumers < 6:
 			l = "pop"
 			if kind != "syncq" && r.Chance(1, 3) {
@@ -261,7 +272,7 @@ func genPri(r *rng.R, n int) corr.Case {
 	return corr.Case{Tag: "sched-priq", Lines: lines}
 }
 
-var junk = []string{"waitclose", "waitclear", "waitclose 1", "atomic", "atomic add 1 ;", "atomic pop", "atomic ; close", "atomic add 1 ; trypop", "atomic close ; close", "add", "add x", "pop 1", "popany x", "close now", "foo", "push 1", "push 1 x", "recv 1", "consume now", "waitlen 2",
+var junk = []string{"addany", "addany x", "settle now", "addn 3", "addn x 1", "drain", "addn 2 0", "add 0", "addany 0", "waitclose", "waitclear", "waitclose 1", "atomic", "atomic add 1 ;", "atomic pop", "atomic ; close", "atomic add 1 ; trypop", "atomic close ; close", "add", "add x", "pop 1", "popany x", "close now", "foo", "push 1", "push 1 x", "recv 1", "consume now", "waitlen 2",
 	"trypop", "tryclose", "tryclear", "addc 1", "priorc 2", "push 3 1", "popany", "prior 4", "recv", "consume", "waitlen", "len"}
 
 func genMalformed(r *rng.R) corr.Case {
@@ -298,6 +309,23 @@ func fixedCases() []corr.Case {
 		mk("fixed", "new mq 1 1", "waitclear", "waitclose", "atomic add 1 ; close", "tryclear", "popany", "tryclear"),
 		// the window between a wake-up and the woken consumer's re-acquisition of the lock: the next producer event
 		// arrives while a consumer is woken but has not resumed
+		mk("window", "new syncq", "pop", "pop", "atomic add 1 ; add 2"),
+		mk("window", "new syncq", "pop", "pop", "pop", "atomic add 1 ; add 2 ; add 3", "pop", "add 4"),
+		// a Pop that was already blocked must fail when it wakes up after a Close, even though an item is there
+		mk("window", "new q 0", "pop", "atomic add 1 ; close", "popany"),
+		mk("window", "new async 2", "pop", "pop", "atomic add 1 ; add 2 ; close"),
+		mk("window", "new mq 0 0", "pop", "popany", "atomic addc 1 ; add 2 ; close"),
+		// a long backlog, fully drained, then a consumer parks and one more item arrives
+		mk("bulk", "new syncq", "addn 4200 1000", "drain", "pop", "add 7", "pop", "add 8", "close"),
+		mk("bulk", "new syncq", "pop", "addn 3 1", "addn 5000 10", "drain", "pop", "pop", "addn 2 9000"),
+		// an *Anyway add waiting for room while consumers empty the queue and park: its retry must wake them
+		mk("anyway", "new mux 1", "add 1", "addany 2", "pop", "pop", "settle", "settle", "close"),
+		mk("anyway", "new q 2", "add 1", "add 2", "addany 3", "addany 4", "pop", "pop", "pop", "pop", "settle", "settle", "pop", "close"),
+		mk("anyway", "new async 1", "add 1", "addany 2", "close", "settle", "popany"),
+		mk("anyway", "new mq 0 1", "add 1", "addany 2", "popany", "popany", "settle", "tryclose"),
+		// nil is a legal item
+		mk("nil", "new q 0", "pop", "add nil", "add nil", "add 1", "pop", "pop", "pop"),
+		mk("nil", "new mq 1 1", "addc nil", "add nil", "pop", "pop", "pop", "atomic add nil ; close"),
 		mk("window", "new syncq", "pop", "pop", "atomic add 1 ; close"),
 		mk("window", "new syncq", "pop", "pop", "pop", "atomic add 1 ; add 2 ; close"),
 		mk("window", "new async 0", "pop", "pop", "atomic add 1 ; add 2"),
